@@ -75,7 +75,8 @@ TREE = {
     "relpkg/__init__.py": "from .inner import value as exported, other as value\n",
     "relpkg/inner.py": "def value(x):\n    return ('inner.value', x)\n\n\ndef other(x):\n    return ('inner.other', x)\n",
     # __all__ in its other spellings, and a re-imported name that the module goes on to change
-    "alls.py": "y = ('alls', 1)\nw = ('alls', 2)\nz = ('alls', 3)\nv = ('alls', 4)\n__all__ = ('y',)\n__all__ += ['w']\n__all__.append('z')\n",
+    "alls.py": "y = ('alls', 1)\nw = ('alls', 2)\nz = ('alls', 3)\nv = ('alls', 4)\n__all__ = ['y']\n__all__ += ('w',)\n__all__.append('z')\n",
+    "tuple_alls.py": "y = ('tuple_alls', 1)\nw = ('tuple_alls', 2)\n__all__ = ('y',)\n",
     "fallback.py": "y = ('fallback', 1)\nw = ('fallback', 2)\nz = ('fallback', 3)\nv = ('fallback', 4)\n",
     "counter_src.py": "count = 1\n",
     "counter.py": "from counter_src import count\ncount += 1\n",
@@ -83,6 +84,9 @@ TREE = {
     "relpkg/viarel.py": "from .inner import value\n",
     "inner.py": "def value(x):\n    return ('top-level inner.value', x)\n",
     "stamps.py": "from datetime import datetime\nepoch = 0\n",
+    # a module that provides a name which is also a builtin; a module that passes a star import on and binds a name no tracer sees
+    "shadow.py": "def open():\n    return ('shadow.open',)\n\n\nrow = ('shadow.row',)\n",
+    "passes_on.py": "from legacy import *\nglobals()['dyn'] = ('passes_on.dyn',)\n",
 }
 CLIENTS = {
     "star_two": "from legacy import *\nfrom modern import *\nprint(parse(1), load(2))\n",
@@ -108,10 +112,15 @@ CLIENTS = {
     "modalias": "from modalias import backend, legacy_like\nprint(backend.load(1), legacy_like.load(2))\n",
     "relpkg": "from relpkg import exported, value\nprint(exported(1), value(2))\n",
     "all_spellings": "from fallback import *\nfrom alls import *\nprint(y, w, z, v)\n",
+    "all_tuple": "from fallback import *\nfrom tuple_alls import *\nprint(y, w)\n",
     "augmented": "from counter import count\nprint(count)\n",
     "relative_reexport": "from relpkg.viarel import value\nprint(value(1))\n",
     "stdlib_dotted_star": "from os import *\nfrom os.path import *\nprint(getcwd() != '', join('a', 'b'))\n",
     "star_hides_missing": "from stamps import *\nprint(datetime(2020, 1, 2).year, epoch)\n",
+    "star_shadows_builtin": "from shadow import *\nprint(open(), row)\n",
+    "star_and_inner_binding": "from shadow import *\nprint(row, [0 for row in []])\n",
+    "star_partly_traced": "from passes_on import *\nprint(parse(1), dyn)\n",
+    "rebinding_alias": "import legacy as lg\nprint(lg.load(1))\nimport modern as lg\nprint(lg.load(2))\n",
     "alias_of_alias": "from compat import load as ld\nfrom swap import parse as ps\nprint(ld(1), ps(2))\n",
     "toplevel_then_local": "import legacy\n\n\ndef f():\n    import legacy as lg\n    from legacy import load as ld\n    return lg.parse(1), ld(2), legacy.load(3)\n\n\nprint(f())\n",
 }
@@ -396,9 +405,125 @@ def import_validate_suite(ctx):
     return [s, corr]
 
 
+STAR_MODULES = ["legacy", "modern", "shadow", "fallback", "alls", "tuple_alls", "stamps", "pkg", "chain_c"]
+STAR_RUNNER = r"""
+import sys, json, os
+sys.path.insert(0, %r)
+import warnings; warnings.simplefilter('ignore')
+from pyrefact import logs, tracing; logs.set_level(100)
+mods, clients = json.load(sys.stdin)
+provided = {}
+for m in mods:
+    ns = {}
+    exec('from ' + m + ' import *', ns)
+    provided[m] = sorted(k for k in ns if k != '__builtins__')
+outs = []
+for src in clients:
+    try:
+        outs.append(tracing.fix_starred_imports(src))
+    except Exception as e:
+        outs.append({'error': type(e).__name__ + ': ' + str(e)})
+json.dump([provided, outs], sys.stdout)
+"""
+
+
+def star_clients(rng, mod, provided):
+    """clients with one star import of `mod`: loads of provided names, builtins, names bound in the client (module level, a
+    comprehension, a function parameter - possibly names the module provides too), sometimes a name nobody provides"""
+    import builtins as _b
+    pool = list(provided) or ["nothing"]
+    out = []
+    for _ in range(6):
+        loads = rng.sample(pool, rng.randint(0, min(3, len(pool))))
+        lines = [f"from {mod} import *"]
+        if rng.random() < 0.4:
+            loads.append(rng.choice(["len", "open", "print", "sorted"]))
+        if rng.random() < 0.35:
+            v = rng.choice(pool + ["local_value"])
+            lines.append(f"squares = [{v} for {v} in range(3)]")
+            loads.append("squares")
+        if rng.random() < 0.3:
+            v = rng.choice(pool + ["param"])
+            lines.append(f"def helper({v}):\n    return {v}")
+            loads.append("helper")
+        if rng.random() < 0.25:
+            v = rng.choice(pool + ["setting"])
+            lines.append(f"{v} = 3")
+            loads.append(v)
+        if rng.random() < 0.2:
+            loads.append(rng.choice(["mystery_name", "__file__"]))
+        lines.append("print(" + ", ".join(loads) + ")" if loads else "print(0)")
+        out.append("\n".join(lines) + "\n")
+    return out
+
+
+def star_model_suite(ctx):
+    """StarImport.expand against the real tracing.fix_starred_imports on generated clients of the package tree"""
+    import ast
+    import builtins as _b
+    import random
+    s = Suite("star-expansion")
+    rng = random.Random(9100 + ctx.seed)
+    d = Path(tempfile.mkdtemp(prefix="c18s_"))
+    try:
+        for rel, text in TREE.items():
+            p = d / rel
+            p.parent.mkdir(parents=True, exist_ok=True)
+            p.write_text(text)
+        env = dict(os.environ, PYTHONPATH=str(d))
+        # the names each module really star-exports, from Python itself
+        p0 = subprocess.run([sys.executable, "-c", STAR_RUNNER % str(common.REPO)], input=json.dumps([STAR_MODULES, []]), cwd=d, capture_output=True, text=True, timeout=300, env=env)
+        if not p0.stdout.strip():
+            raise RuntimeError(p0.stderr[-600:])
+        provided = json.loads(p0.stdout)[0]
+        fixed = [("shadow", "from shadow import *\nprint(open(), row)\n"), ("shadow", "from shadow import *\nprint(row, [0 for row in []])\n"),
+                 ("legacy", "from legacy import *\nprint(parse(1), mystery_name)\n"), ("legacy", "from legacy import *\nprint(__file__, load(1))\n"),
+                 ("legacy", "from legacy import *\nprint(1)\n")]
+        clients = fixed + [(m, c) for m in STAR_MODULES for c in star_clients(rng, m, provided[m])]
+        p1 = subprocess.run([sys.executable, "-c", STAR_RUNNER % str(common.REPO)], input=json.dumps([[], [c for _m, c in clients]]), cwd=d, capture_output=True, text=True, timeout=600, env=env)
+        outs = json.loads(p1.stdout)[1]
+    finally:
+        shutil.rmtree(d, ignore_errors=True)
+    builtin_names = {n for n in dir(_b) if n != "_"}
+    reqs = []
+    for (m, src) in clients:
+        tree = ast.parse(src)
+        referenced = sorted({n.id for n in ast.walk(tree) if isinstance(n, ast.Name) and isinstance(n.ctx, ast.Load)})
+        bound = {n.id for n in ast.walk(tree) if isinstance(n, ast.Name) and isinstance(n.ctx, ast.Store)}
+        bound |= {n.name for n in ast.walk(tree) if isinstance(n, (ast.FunctionDef, ast.ClassDef))}
+        bound |= {a.arg for n in ast.walk(tree) if isinstance(n, ast.arguments) for a in n.args}
+        undefined = [n for n in referenced if n not in bound and n not in builtin_names]
+        reqs.append({"suite": "starimport", "referenced": referenced, "undefined": undefined, "provided": provided[m]})
+    answers = ctx.driver.ask(reqs)
+    for (m, src), out, req, ans in zip(clients, outs, reqs, answers):
+        s.cases += 1
+        if isinstance(out, dict):
+            s.disagreements.append({"client": "star-model", "src": src, "what": f"fix_starred_imports raised {out['error']}"})
+            continue
+        otree = ast.parse(out)
+        froms = [n for n in otree.body if isinstance(n, ast.ImportFrom) and n.module == m]
+        if any(a.name == "*" for n in froms for a in n.names):
+            real = None
+        else:
+            real = sorted({a.name for n in froms for a in n.names})
+        model = ans.get("expand")
+        model = None if model is None else sorted(set(model))
+        s.count("kept" if real is None else ("deleted" if not real else f"{len(real)} names"))
+        if model != real:
+            s.disagreements.append({"client": "star-model", "module": m, "src": src, "out": out, "model": model, "real": real, "request": req,
+                                    "what": f"fix_starred_imports on 'from {m} import *': explicit names {real} (None = star import kept), the model says {model}"})
+        elif real and (set(real) & builtin_names or len(real) > 1):
+            s.nt(src)
+    s.samples.append({"suite": "star-expansion", "src": fixed[0][1], "expand": ["open", "row"]})
+    s.note = ("5 fixed + 48 generated clients (per seed) holding one star import of 8 modules of the package tree (plain, __all__, __all__ built in steps, package __init__, re-exporting, "
+              "a provided name that is a builtin): the explicit list the real fix_starred_imports writes (or that it keeps / deletes the star import) vs StarImport.expand, "
+              "fed with the names Python itself star-imports from the module and with referenced / undefined names collected by the harness from the ast")
+    return s
+
+
 def suites(ctx):
     common.import_pyrefact()
-    return [binding_suite(ctx), tree_oracle(ctx), history_oracle(ctx)] + import_validate_suite(ctx)
+    return [binding_suite(ctx), star_model_suite(ctx), tree_oracle(ctx), history_oracle(ctx)] + import_validate_suite(ctx)
 
 
 def match_known(d, known):
